@@ -487,6 +487,12 @@ void PoseidonGoldilocks::merkletree_avx512(Goldilocks::Element *tree, Goldilocks
     {
         return;
     }
+    if (num_rows == 1)
+    {
+        // the two-rows-at-a-time leaf loop below needs an even number of rows
+        merkletree_avx(tree, input, num_cols, num_rows, nThreads, dim);
+        return;
+    }
     Goldilocks::Element *cursor = tree;
     // memset(cursor, 0, num_rows * CAPACITY * sizeof(Goldilocks::Element));
     if (nThreads == 0)
@@ -522,6 +528,12 @@ void PoseidonGoldilocks::merkletree_batch_avx512(Goldilocks::Element *tree, Gold
 {
     if (num_rows == 0)
     {
+        return;
+    }
+    if (num_rows == 1)
+    {
+        // the two-rows-at-a-time leaf loop below needs an even number of rows
+        merkletree_batch_avx(tree, input, num_cols, num_rows, batch_size, nThreads, dim);
         return;
     }
     Goldilocks::Element *cursor = tree;
